@@ -2,6 +2,7 @@ package main
 
 import (
 	"fmt"
+	"regexp"
 	"go/ast"
 	"go/parser"
 	"go/token"
@@ -175,6 +176,8 @@ func stmts(list []ast.Stmt, out *[]string, expr func(ast.Node)) {
 	}
 }
 
+var rootSkeletonRe = regexp.MustCompile(`^(FileFromJSON|NewReader|NewWriter|NewFile|NewCashLetter|NewBundle|.*Option|UnmarshalJSON|MarshalJSON|setRecordType|setRecordTypes|DecodeImageData|IsFRBCompatibilityModeEnabled|handleIBM1047Compatibility|DecodeEBCDIC|Passthrough|Flush|SetHeader|SetControl|AddCashLetter|AddBundle|GetBundles|GetRoutingNumberSummary|GetCreditItems)$`)
+
 var skeletonDirs = []string{"internal/files", "internal/files/v2", "internal/storage", "internal/responder"}
 
 func emitState(dir, repo string) {
@@ -214,6 +217,19 @@ func emitState(dir, repo string) {
 				}
 				for _, decl := range f.Decls {
 					if fd, ok := decl.(*ast.FuncDecl); ok && fd.Body != nil {
+						name := fd.Name.Name
+						if fd.Recv != nil {
+							name = recvType(fd) + "." + name
+						}
+						skels = append(skels, skel{d + ":" + name, skeleton(fd.Body)})
+					}
+				}
+			}
+			// the functions of the library that are neither translated nor covered by a regenerated table: constructors,
+			// options, the JSON loader and the (un)marshallers, record-type stamping, the image decoder, the line decoders
+			if d == "." {
+				for _, decl := range f.Decls {
+					if fd, ok := decl.(*ast.FuncDecl); ok && fd.Body != nil && rootSkeletonRe.MatchString(fd.Name.Name) {
 						name := fd.Name.Name
 						if fd.Recv != nil {
 							name = recvType(fd) + "." + name
